@@ -265,6 +265,30 @@ def exercise(c: gen.Compiled, seed: int, n_calls: int, pydantic: bool = False):
                         stats["labels"].add(f"request_stream_as:{shape}")
                     else:
                         arg = reqs[0]
+                    if cs and ss and py in overridden and py not in erroring and not pingpong and sent_snapshots is None and rng.random() < 0.3:
+                        # timeout, then retry with the SAME request channel: a first attempt is abandoned (the caller is
+                        # cancelled by wait_for while nothing has been sent yet); the retry reads the channel that is fed now.
+                        # Everything the caller sends belongs to the retry - the abandoned call may not take any of it.
+                        from betterproto.grpc.util.async_channel import AsyncChannel
+
+                        rq = AsyncChannel()
+
+                        async def first_attempt(rq=rq, fn=fn):
+                            async for _ in fn(rq):
+                                pass
+
+                        try:
+                            await asyncio.wait_for(first_attempt(), timeout=3.0)
+                        except (asyncio.TimeoutError, grpclib.GRPCError):
+                            pass
+                        for _ in range(60):
+                            await asyncio.sleep(0)
+                        log.clear()
+                        seen_meta.clear()
+                        proxy.calls.clear()
+                        feeder = asyncio.ensure_future(rq.send_from(list(reqs), close=True))
+                        arg = rq
+                        stats["labels"].add("request_stream_as:async_channel_after_abandoned_attempt")
                     got_reps, err = None, None
                     if pingpong:
                         # a conversation: request k+1 is only produced after response k has arrived
